@@ -48,6 +48,7 @@ func startFuncs(c *Ctx) []*ssa.Function {
 }
 
 func runC20(c *Ctx, r *Run) {
+	r.Rule("COVER-1", "per-element validation loops over a slice examine every element (bound = len - largest offset read)")
 	r.Rule("START-1", "key material passed by pointer is dereferenced only under a nil test whose failing edge returns an error")
 	r.Rule("START-G", "guard inventory of start closures, round.NewSession and the handler constructors: every recorded parameter check is present and covers every session-creating exit")
 	r.Rule("TN-1", "no typed-nil boxing: a pointer taken from a plain map lookup is not converted to an interface without a nil test")
@@ -208,6 +209,20 @@ func runC20(c *Ctx, r *Run) {
 	}
 	r.Hold("TN-1", "protocols|typed-nil-scan", "protocols/", fmt.Sprintf("all MakeInterface instructions of protocols/* scanned (%d lookups boxed)", nBox))
 
+	// COVER-1: the list validators behind every start function walk their whole input
+	{
+		var all []*ssa.Function
+		for _, p := range c.LibPkgs() {
+			for _, fn := range funcsOfPkg(c, c.SSA[p.Types]) {
+				if fn.Parent() == nil {
+					all = append(all, fn)
+				}
+			}
+		}
+		sort.Slice(all, func(i, j int) bool { return c.FuncName(all[i]) < c.FuncName(all[j]) })
+		checkSliceCoverage(c, r, "COVER-1", all)
+	}
+	r.Require("COVER-1", 1)
 	r.Require("START-1", 10)
 	r.Require("START-G", 40)
 }
